@@ -14,7 +14,8 @@ RULE = ("long interleaved histories of constructions and evaluations over pools 
         "drawn across their ranges, points as arrays and lists, repeated points, StronginC3 objective and its three constraints): every evaluation is compared bitwise with "
         "the canonical value = first evaluation on a freshly constructed instance (the bit-identical point is also put to sibling members of the family back to back, repeated immediately, evaluated first after construction at the declared optimum, holders handed back by earlier calls are reused, integer and half-integer lattice points are included and integer points are also handed over with integer type), the point is compared with a copy taken before the call, the returned object must be the "
         "supplied holder carrying the value; a sample of keys is re-evaluated in a fresh interpreter. Non-trivial: a history with >= 50 evaluations over >= 5 instances; "
-        "distinct = distinct (family, member, point, function id) keys evaluated.")
+        "distinct = distinct (family, member, point, function id) keys evaluated."
+       ' Coordinates of tiny magnitude (squares underflow, subnormals, signed zero) are included and an in-box evaluation that raises is a violation.')
 ASSUMPTIONS = ["values are compared bitwise (same machine, same libm)", "points inside the box of the instance"]
 CHUNK = 1
 
